@@ -421,12 +421,37 @@ def immutability_scan(eng, tier, seed):
     for m, q, cd in _classes(eng, MODEL_MODULES):
         memo = MEMO_FIELDS.get(cd.name, set())
         bad = []
+        methods = {x.name: x for x in cd.body if isinstance(x, ast.FunctionDef)}
+
+        def self_calls(fn):
+            if not fn.args.args:
+                return set()
+            me = fn.args.args[0].arg
+            return {n.func.attr for n in ast.walk(fn) if isinstance(n, ast.Call) and isinstance(n.func, ast.Attribute)
+                    and isinstance(n.func.value, ast.Name) and n.func.value.id == me}
+
+        # construction helpers: private methods that are called (on self) only from __init__ or from other construction
+        # helpers - e.g. a step of __init__ extracted by a refactoring; they are part of the constructor
+        init_helpers = set()
+        if "__init__" in methods:
+            grow = True
+            while grow:
+                grow = False
+                ctor = {"__init__"} | init_helpers
+                for name, fn in methods.items():
+                    private = name.startswith("_") and not (name.startswith("__") and name.endswith("__"))
+                    if not private or name in init_helpers:
+                        continue
+                    callers = {m for m, f in methods.items() if name in self_calls(f)}
+                    if callers and callers <= ctor:
+                        init_helpers.add(name)
+                        grow = True
         for fn in [x for x in cd.body if isinstance(x, ast.FunctionDef)]:
             if not fn.args.args:
                 continue
             selfname = fn.args.args[0].arg
             is_static = any(isinstance(d, ast.Name) and d.id in ("staticmethod", "classmethod") for d in fn.decorator_list)
-            in_init = fn.name == "__init__"
+            in_init = fn.name == "__init__" or fn.name in init_helpers
             for n in ast.walk(fn):
                 targets = []
                 if isinstance(n, ast.Assign):
